@@ -1,3 +1,76 @@
-# configuration of the C09 check (driver) and its MANIFEST entry (provisional)
-CFG = {'rule': 'provisional', 'min_cov': {}}
-META = {'design_ref': 'DESIGN.md section 3, C09', 'note': '', 'technique': '', 'text': ''}
+# configuration of the C09 check (driver) and its MANIFEST entry
+
+_ELEM = ['Int8', 'Int16', 'Int32', 'Int64', 'Int', 'Float32', 'Float64', 'Real32', 'Real64']
+_REAL = ('Real32', 'Real64')
+
+_min = {}
+# pairs discovered by reflection per type (counts measured on the unchanged tree; a pairing that silently stops
+# matching makes the run inconclusive, a pair added later is exercised automatically)
+for _t in _ELEM:
+    _min['max:pairs:' + _t] = 20
+    _min['max:pairs:Dense%sVector' % _t] = 19 if _t in _REAL else 16
+    _min['max:pairs:Sparse%sVector' % _t] = 18
+    _min['max:pairs:Dense%sMatrix' % _t] = 19
+    _min['max:pairs:Sparse%sMatrix' % _t] = 8
+    for _s in ('Dense', 'Sparse'):
+        for _k in ('VectorIterator', 'VectorJointIterator', 'MatrixIterator', 'MatrixJointIterator'):
+            _min['max:pairs:%s%s%s' % (_s, _t, _k)] = 1  # Get/GET, exercised by the iterator walks
+    # invocations judged (both variants returned and were compared) per receiver type, quick tier
+    _min['judged:' + _t] = 8000
+    _min['judged:Dense%sVector' % _t] = 6000
+    _min['judged:Sparse%sVector' % _t] = 7000
+    _min['judged:Dense%sMatrix' % _t] = 7000
+    _min['judged:Sparse%sMatrix' % _t] = 3000
+_min.update({
+    'max:pairs-total': 807,
+    'max:pairs-executable': 735,
+    'distinct pair': 735,            # every executable pair got its own directed case
+    'distinct wellexercised': 735,   # ... in which at least half of the operand sets were judged (not rejected by both variants)
+    'real-order:1': 15000, 'real-order:2': 15000,
+    'recv-view:slice': 30000, 'recv-view:T': 8000, 'recv-view:sliceT': 5000,
+})
+for _op in ['Abs', 'Add', 'AppendVector', 'At', 'Col', 'ConstAt', 'Diag', 'Div', 'Equals', 'Exp', 'Greater', 'Iterator', 'IteratorFrom',
+            'JointIterator', 'Log', 'Log1p', 'LogAdd', 'LogSub', 'MaddM', 'MaddS', 'Max', 'MdivM', 'MdivS', 'MdotM', 'MdotV', 'Min', 'MmulM',
+            'MmulS', 'MsubM', 'MsubS', 'Mul', 'Neg', 'Outer', 'Pow', 'Row', 'Set', 'Sign', 'Slice', 'Smaller', 'Sqrt', 'Sub', 'VaddS', 'VaddV',
+            'VdivS', 'VdivV', 'VdotM', 'VmulS', 'VmulV', 'VsubS', 'VsubV']:
+    _min['op:' + _op] = 3000
+
+CFG = {
+    'rule': 'method pairs (generic M / concrete NAME with strings.ToUpper(M) == NAME minus underscores, plus the aliases AppendVector/APPEND and '
+            'ConstAt/AT_) are discovered by reflection on a hand-written registry of the 60 exported scalar/vector/matrix types of the root '
+            'package (iterator types are reached through return types). Monitor "pairs": one case per discovered pair, running the directed '
+            'operand sets (every sign combination of receiver and scalar operands x derivative order for scalars; 12 zero-pattern triples, zero '
+            'divisors, value-equal operands for Equals for containers) followed by seeded random sets (120 quick / 1500 thorough per pair). '
+            'Monitor "random": one random invocation per case (random pair, dyadic k/8 values, small integers for integer types, derivative '
+            'seeds for Real types with order 0/1/2, absent / stored-zero / zero-with-derivative entries, receivers that are slices or transposes '
+            'of a larger parent, occasional dimension mismatches and out-of-range indices). Both variants are invoked through reflect on '
+            'independently built copies of receiver and operands (operands built as the concrete parameter types); compared: receiver state '
+            '(every element, N, every derivative slot; parent of a view), return values (scalars, vectors, matrices element-wise; iterators by '
+            'walking Ok/Index/Get|GET/Next, positions where every element is null ignored), and the receiver again after writing through a '
+            'returned scalar/vector/matrix. A panic of both variants is "rejected, not judged"; a panic of one only is a violation. '
+            'non-trivial = both variants returned and at least one operand or the receiver is non-zero; distinct by pair + explicit operands.',
+    'min_cov': _min,
+    'tolerances': 'exact policy (DESIGN.md 2.4: == on value and every derivative slot, -0 == +0, NaN == NaN, absent sparse entry == 0; operands on '
+                  'the dyadic grid k/8, |k| <= 48, small integers for integer types). Scalar Exp/Log/Log1p/Pow/Sqrt/LogAdd/LogSub: 1 ulp of the '
+                  'storage type per slot (never needed on the unchanged tree: counter equal-within-1ulp stays absent).',
+    'assumptions': [
+        'the registry of exported concrete types in harness/c09/registry.go is complete (written by hand from `grep "^type [A-Z]" /repo/*.go`); '
+        'constant scalars, sparse constant vectors and DenseGradient have no generic/concrete pairs',
+        'whether a sparse or joint iterator visits a position at which every element is null (value and derivatives zero) is representation, not result',
+        'non-finite operands are excluded; zero divisors are included and classed zero-divisor',
+    ],
+}
+
+META = {
+    'design_ref': 'DESIGN.md section 3, C09',
+    'technique': 'runtime monitoring: differential execution of reflection-discovered method pairs on cloned operands, exact comparison of '
+                 'observable state',
+    'text': 'Every generic/concrete method pair discovered by reflection on every exported scalar, vector and matrix type (807 pairs, 735 '
+            'invocable with generated operands, 72 iterator Get/GET pairs exercised by walking returned iterators) is invoked on independently '
+            'built equal receivers and operands; receiver state, return values and write-through behaviour of returned views are compared '
+            'exactly. Held on the ~0.39M (quick) / ~9M (thorough) invocations executed, which the evidence lists per receiver type and '
+            'operation; open findings are listed by pair and input class.',
+    'note': 'Trusted: the public read API (ConstAt/GetDerivative/GetHessian) used for snapshots, the hand-written type registry, the shape rules '
+            'for MdotM/MdotV/VdotM/Outer/AppendVector/Slice (a pair whose operands are rejected by both variants more than half of the time '
+            'lowers "distinct wellexercised" and makes the run inconclusive).',
+}
